@@ -625,6 +625,23 @@ class WitnessModel(Model):
             for it_ in items:
                 it_.members['dims'] = []
             return self.array(interp, items, dim)
+        dims = kwargs.get('dims')
+        if isinstance(vals, list | tuple) and isinstance(dims, list | tuple) and len(dims) == 1 \
+                and all(isinstance(x, bool | int | float | F) for x in vals) and kwargs.get('variances') is None:
+            # an array of plain numbers: concrete elements
+            unit = self._unit_arg(interp, kwargs.get('unit', DIMENSIONLESS), node) if 'unit' in kwargs else DIMENSIONLESS
+            dt = norm_dtype(kwargs.get('dtype')) if kwargs.get('dtype') is not None else \
+                ('bool' if all(isinstance(x, bool) for x in vals) and vals else ('int64' if all(isinstance(x, int) for x in vals) and vals else 'float64'))
+            items = []
+            for x in vals:
+                it_ = self.new(interp, Rat.const(F(repr(x)) if isinstance(x, float) else F(int(x)) if isinstance(x, bool) else F(x)), unit, dt)
+                it_.members['concrete'] = x
+                it_.members['dims'] = []
+                items.append(it_)
+            r = self.array(interp, items, dims[0])
+            if not items:
+                r.unit, r.dtype = unit, dt
+            return r
         r = super().sc_array(interp, args, kwargs, node)
         if isinstance(vals, SVar) and vals.members.get('dims') == [] and not kwargs.get('dims'):
             r.members['dims'] = []
